@@ -664,6 +664,7 @@ pub fn classify(s: &Script) -> CaseInfo {
 }
 
 pub fn run(ctx: &Ctx, rep: &mut Report) {
+    rep.journal_cases = true;
     let _ = s3sim::global();
     rep.trust("loopback S3 simulator scripted per chunk (visibility by polling-attempt count, transient 500s, uploader-ahead at volume switches) and its request log; tokio's paused clock for the retry back-offs");
     rep.trust("reference: the delivery sequence the script allows (successor walk with the listed-last rule at volume switches)");
